@@ -220,7 +220,25 @@ def _c09(tier, seed):
     return [dict(name="rpc", pkg=".", harness=NET_HARNESS + ["harness/root/c09.go"], runs=runs, solver="z3", walllimit=600, timeout=3000,
                  validate_runs=["H_C09_results(2,0,0)", "H_C09_results(2,1,1)"], veclen=200)]
 
+def _c10(tier, seed):
+    q = tier == "quick"
+    runs = ["H_C10_seqno()", "H_C10_acks(0)", "H_C10_acks(1)", "H_C10_order(2,0)", "H_C10_order(2,1000)", "H_C10_order(3,0)", "H_C10_order(3,1000)"]
+    if not q:
+        runs += ["H_C10_order(4,0)", "H_C10_order(4,1000)", "H_C10_order(3,4)"]
+    return [
+        dict(name="msgid", pkg="internal/utils", harness=["harness/utils/c10.go"], runs=["H_C10_msgid()"], solver="z3", validate_runs=["H_C10_msgid()"], veclen=50),
+        dict(name="stream", pkg=".", harness=NET_HARNESS + ["harness/root/c10.go"], runs=runs, solver="z3", walllimit=600, timeout=3000, replay="schedule",
+             validate_runs=["H_C10_seqno()", "H_C10_acks(0)", "H_C10_acks(1)", "H_C10_order(2,1000)"], veclen=100),
+    ]
+
 PROPS = {
+    "C10": dict(
+        jobs=_c10,
+        bounds={"quick": "msg_id arithmetic for every pair of non-decreasing clock readings below 2^31 s (symbolic); one send step from every even seq_no; 2 and 3 concurrent senders with clocks that advance 0 or 1000 ns per reading, every interleaving of clock readings and locked transport writes (yield points: time.Now, transport write); acknowledgement of 2 server messages with every odd/even seq_no combination, alone and in a container",
+                "thorough": "4 concurrent senders; 4 ns clock step"},
+        outside="more senders; years >= 2038 (seconds<<32 overflows int64); schedules that differ only between yield points; real sockets",
+        assumptions=["time.Now stubbed: (seconds, nanoseconds) pair, non-decreasing (symbolic) or concrete with a fixed step", "cooperative scheduling model with yields at clock readings and transport writes", "division by 10^9 of sec*10^9+ns simplified after the solver confirmed 0 <= ns < 10^9 and the absence of wrap-around"],
+    ),
     "C09": dict(
         jobs=_c09,
         bounds={"quick": "2 concurrent callers (3 for object results) x every answer order x {plain messages, one container} x result kinds {object, Bool, bare Vector<long> with hint}; result payloads symbolic; schedules: every choice of the next goroutine at each transport write (symbolic scheduling decisions), deterministic lowest-id-first elsewhere; concrete clock (1 us per reading)",
